@@ -236,6 +236,36 @@ def sweep(run, pid):
                     res = E.engine_case(proj, d, text, q)
                     run.count(("same-kind-twice", k, text))
                     judge(run, pid, proj, text, q, res, stats, mism)
+            # --- conditions that cannot be evaluated on some entities (a member chain through a part that is absent:
+            #     `return;` has no result, `for(;;)` no clauses, `assert x;` no message): such a combination is
+            #     rejected, whatever was decided for the combination tested before it
+            ERR = [("ReturnStmt", 'x.getReturnStmt().Result.NodeString == "%s"'), ("ReturnStmt", 'x.getReturnStmt().Result.NodeString != "%s"'),
+                   ("ForStmt", 'x.getForStmt().Condition.NodeString != "%s"'), ("AssertStmt", 'x.getAssertStmt().Message.NodeString != "%s"'),
+                   ("ClassInstanceExpr", 'x.getClassInstanceExpr().GetArg(0).NodeString != "%s"')]
+            for kind, tmpl in ERR:
+                if not proj.by_kind.get(kind):
+                    continue
+                for lit in ("null", "zz", "0"):
+                    for wrap in ("%s", "!(%s)", '%s || x.toString() == "never"'):
+                        text = "FROM %s AS x WHERE %s SELECT x" % (kind, wrap % (tmpl % lit))
+                        for rep in range(2):
+                            rr = h.call(op="query-entities", graph=proj.name, q=text, timeout=120)
+                            run.count(("erroring", pi, text, rep))
+                            stats["erroring_condition_cases"] += 1
+                            if rr.get("outcome") != "ok":
+                                continue
+                            tuples = [list(t) for t in rr["tuples"]]
+                            if not tuples:
+                                continue
+                            er = h.call(op="eval-atoms", graph=proj.name, q=text, strs=[wrap % (tmpl % lit)], results=tuples)
+                            if er.get("outcome") != "ok":
+                                continue
+                            badrows = [t for t, c in zip(tuples, er["tables"][0]) if c != "t"]
+                            dup = len(tuples) - len({tuple(t) for t in tuples})
+                            if (badrows and pid == "C02") or (dup and pid == "C02"):
+                                run.violation("C02:spurious", "%d spurious / %d duplicated combination(s) reported for %r: the condition is not true on them (it is false or cannot be evaluated there), e.g. %s" %
+                                              (len(badrows), dup, text, E.describe(proj, [tuple(badrows[0])] if badrows else [], 1)),
+                                              dict(query=text, java=E.java_files(proj), spurious=E.describe(proj, [tuple(b) for b in badrows[:3]])))
             # --- literals containing keywords, negation of a single comparison, no WHERE
             for (k, nodes) in list(proj.by_kind.items())[:6]:
                 if k not in QG.STRING_ACC:
